@@ -119,7 +119,7 @@ theorem good_cur {cap : Cap} {L R : Bool} (p : Pool) (t : Nat) (f : PTask → PT
     have c : x.mapHeld = s.mapHeld := by rw [← hs]; rfl
     have d : x.req = s.req := by rw [← hs]; rfl
     rw [a, b, c, d]; exact hmap
-  exact ⟨⟨h0, hmf.map hg.map, hmf.acc hg.acc⟩, hc'⟩
+  exact ⟨⟨h0, hmf.map hg.map, hmf.acc hg.acc, hg.canc.of_eq rfl rfl⟩, hc'⟩
 
 /-! ### profile transformers -/
 
@@ -174,7 +174,7 @@ theorem _root_.Taskpool.OKs.finished {lost : Bool} {s : SoftP} (h : OKs lost s) 
 theorem good_setLost {cap : Cap} (p : Pool) (hg : Good cap true R p) : Good cap true R ({ p with lost := true } : Pool) :=
   ⟨⟨hg.slot, hg.phase, hg.reg.setLost, hg.grp.of_eq rfl rfl, fun t tk h => (hg.life t tk h).toLost,
     hg.fl.frame rfl rfl (fun _ h => h), hg.wk.of_eq rfl rfl, hg.rz,
-    fun h => Bool.noConfusion h, fun h => Bool.noConfusion h⟩, hg.map.of_eq rfl rfl, hg.acc.of_eq rfl rfl⟩
+    fun h => Bool.noConfusion h, fun h => Bool.noConfusion h⟩, hg.map.of_eq rfl rfl, hg.acc.of_eq rfl rfl, hg.canc.of_eq rfl rfl⟩
 
 /-- in the strict variant the registries are complete, so `_task_ending` finds the id (no `KeyError`) -/
 theorem strict_moveToEnded {cap : Cap} (p : Pool) (t : Nat) (hg : Good cap false R p) (s : SoftP) (hc : p.Cur t s)
@@ -265,7 +265,7 @@ theorem good_releaseMapSlot {cap : Cap} {L R : Bool} (p : Pool) (t : Nat) (tk : 
       (fun _ => by show s.phase ≠ _ ∧ s.phase ≠ _; rw [hph]; simp) (by rw [← hdm]; exact hok.dropMapIf hr)
     have hacc : AccOK ((p.releaseMap tk.req).modTask t fun k => { k with mapHeld := false }) :=
       ((accFrame_releaseMap p tk.req).trans (accFrame_modTask _ t (fun k => { k with mapHeld := false }) (fun _ => rfl))).acc hg.acc
-    refine ⟨⟨h1, ?_, hacc⟩, by rw [hdm]; exact hc1, t0.lost⟩
+    refine ⟨⟨h1, ?_, hacc, (cancOK_releaseMap p tk.req hg.canc).of_eq rfl rfl⟩, by rw [hdm]; exact hc1, t0.lost⟩
     -- the map books: the task drops its slot, the call's semaphore takes it back
     obtain ⟨x, hx, hs⟩ := hc
     have hxh : x.mapHeld = true := by have := hmh hsm; rw [← hs] at this; exact this
@@ -455,6 +455,9 @@ theorem good_moveRelease {cap : Cap} {L R : Bool} (p p1 : Pool) (t : Nat) (hg : 
     have f3 : MapFrame p1.releasePool ((p1.releasePool).modTask t fun k => { k with released := true }) :=
       MapFrame.modify _ _ t _ rfl rfl (fun _ _ => ⟨rfl, rfl⟩)
     exact ((f1.trans f2).trans f3).acc hg.acc
+  have hcn : CancOK ((p1.releasePool).modTask t fun k => { k with released := true }) := by
+    have c1 : CancOK p1 := hg.canc.of_eq (moveToEnded_reqs p p1 t hm) (by rw [(moveToEnded_frame p p1 t hm).1])
+    exact (cancOK_releasePool p1 c1).of_eq rfl rfl
   have hfl : FlushOK ((p1.releasePool).modTask t fun k => { k with released := true }) := by
     refine hg.fl.frame ?_ hap ?_
     · rw [show ((p1.releasePool).modTask t fun k => { k with released := true }).gathers = p1.releasePool.gathers from rfl,
@@ -474,7 +477,7 @@ theorem good_moveRelease {cap : Cap} {L R : Bool} (p p1 : Pool) (t : Nat) (hg : 
       rw [show ((p1.releasePool).modTask t fun k => { k with released := true }).resized = p1.releasePool.resized from rfl,
         releasePool_resized, moveToEnded_resized p p1 t hm]; exact hg.rz h,
     fun h => by rw [hlost]; exact hg.ll h,
-    fun h => by rw [hap]; exact hg.al h⟩, hmp, hac⟩, ⟨_, hget, by rw [← hs]; rfl⟩⟩
+    fun h => by rw [hap]; exact hg.al h⟩, hmp, hac, hcn⟩, ⟨_, hget, by rw [← hs]; rfl⟩⟩
   · cases cap with
     | fin n =>
       obtain ⟨v, hv, hsum⟩ := hg.slot
@@ -613,7 +616,7 @@ theorem good_taskCancellation {cap : Cap} {L R : Bool} (p : Pool) (t : Nat) (tk 
     have ht : t ∈ p.running := by simpa using hrun
     -- the registry move
     have hg1 : Good cap L R ({ p with running := p.running.erase t, cancelledR := p.cancelledR ++ [t] } : Pool) := by
-      refine ⟨⟨hg.slot, hg.phase, hg.reg.regCancel t ht ?_, hg.grp.of_eq rfl rfl, hg.life, hg.fl.frame rfl rfl (fun _ h => h), hg.wk.of_eq rfl rfl, hg.rz, hg.ll, hg.al⟩, hg.map.of_eq rfl rfl, hg.acc.of_eq rfl rfl⟩
+      refine ⟨⟨hg.slot, hg.phase, hg.reg.regCancel t ht ?_, hg.grp.of_eq rfl rfl, hg.life, hg.fl.frame rfl rfl (fun _ h => h), hg.wk.of_eq rfl rfl, hg.rz, hg.ll, hg.al⟩, hg.map.of_eq rfl rfl, hg.acc.of_eq rfl rfl, hg.canc.of_eq rfl rfl⟩
       intro tk' h
       obtain ⟨x, hx, hs⟩ := hc
       rw [hx] at h; cases h
